@@ -807,6 +807,9 @@ impl Monitor for C12 {
             obs.sample(J::obj(vec![("index", J::Int(idx as i128)), ("ops", J::Arr(log.iter().take(12).map(|l| J::s(truncate(l, 200))).collect()))]));
         }
     }
+    fn boot_mut(&mut self) -> Option<&mut Xstate> {
+        Some(&mut self.boot)
+    }
     fn describe(&mut self, idx: u64) -> String {
         format!("collection operation sequence #{}", idx)
     }
